@@ -113,16 +113,20 @@ func (sp *SpinLock) TryLock(lockKeys []*LockKey) ([]*LockKey, bool) {
 	succLocked := []*LockKey{}
 	for _, k := range lockKeys {
 		if lkType, occupiedByOthers := sp.m.LoadOrStore(k.key, k.lockType); occupiedByOthers {
+			verifYield("trylock.loaded")
 			if lkType == sharedLock && k.lockType == sharedLock { //读读共享
 				sp.refCounter.Add(k.key)
+				verifYield("trylock.added")
 				succLocked = append(succLocked, k)
 				continue
 			} else {
 				return succLocked, false //读写冲突
 			}
 		}
+		verifYield("trylock.loaded")
 		if k.lockType == sharedLock {
 			sp.refCounter.Add(k.key)
+			verifYield("trylock.added")
 		}
 		succLocked = append(succLocked, k) //第一个抢到
 	}
@@ -137,9 +141,14 @@ func (sp *SpinLock) Unlock(lockKeys []*LockKey) {
 		k := lockKeys[i].key
 		if lkType == exclusiveLock {
 			sp.m.Delete(k)
+			verifYield("unlock.deleted")
 		} else if lkType == sharedLock { //共享锁要考虑引用计数
 			if sp.refCounter.Release(k) == 0 {
+				verifYield("unlock.released")
 				sp.m.Delete(lockKeys[i].key)
+				verifYield("unlock.deleted")
+			} else {
+				verifYield("unlock.released")
 			}
 		}
 	}
